@@ -29,6 +29,9 @@ def it_next(m, it):
     if k == 'range':
         if it.a >= it.b: return mk_option(None)
         it.a += 1; return mk_option(it.a - 1)
+    if k == 'vec_values':
+        if it.a >= it.b: return mk_option(None)
+        it.a += 1; return mk_option(it.src[it.a - 1])
     if k == 'rev': return it_next_back(m, it.src)
     if k == 'skip':
         while it.a > 0:
@@ -130,7 +133,7 @@ def to_iter(m, v):
     if v.__class__ is IterObj: return v
     if v.__class__ is Agg and v.ty == 'Range': return IterObj('range', None, v.f[0], v.f[1])
     if v.__class__ is Agg and v.ty == 'Option': return IterObj('option', v.f[0] if v.disc == 1 else None)
-    if v.__class__ is VecObj: return IterObj('slice', v.items, 0, len(v.items))      # into_iter by value: yields slots
+    if v.__class__ is VecObj: return IterObj('vec_values', list(v.items), 0, len(v.items))      # into_iter by value: yields the elements
     if v.__class__ is Agg:
         f = m.prog.byname.get(f'<{v.ty} as Iterator>::next')
         if f is not None: return IterObj('user', (f, [v]))
